@@ -251,6 +251,25 @@ def module_state():
             if getattr(type(o), "__module__", "").startswith("typing") or type(o).__name__ in ("TypeVar", "_SpecialForm", "Logger"):
                 continue
             out["%s.%s" % (modname, n)] = S(o)
+    # default arguments of functions and methods (a mutable default lives as long as the process does)
+    def defaults_of(label, fn_):
+        fn_ = getattr(fn_, "__func__", fn_)
+        fn_ = getattr(fn_, "__wrapped__", fn_)
+        d_ = getattr(fn_, "__defaults__", None) or ()
+        kd_ = getattr(fn_, "__kwdefaults__", None) or {}
+        vals = [v_ for v_ in list(d_) + list(kd_.values()) if isinstance(v_, (list, dict, set)) or (hasattr(v_, "__dict__") and not isinstance(v_, (type, types.FunctionType)))]
+        if vals:
+            out["defaults:" + label] = S(vals)
+    for modname, mod in sorted(sys.modules.items()):
+        if mod is None or not (modname == "pypika_tortoise" or modname.startswith("pypika_tortoise.")):
+            continue
+        for n, o in sorted(vars(mod).items()):
+            if isinstance(o, (types.FunctionType, staticmethod, classmethod)) and getattr(getattr(o, "__func__", o), "__module__", None) == modname:
+                defaults_of("%s.%s" % (modname, n), o)
+            elif isinstance(o, type) and getattr(o, "__module__", None) == modname:
+                for an, av in sorted(vars(o).items()):
+                    if isinstance(av, (types.FunctionType, staticmethod, classmethod)):
+                        defaults_of("%s.%s.%s" % (modname, n, an), av)
     # interpreter-wide settings a render has no business changing
     import decimal as _d
     import os as _os
